@@ -221,7 +221,10 @@ def make_cp_class(version, routes):
             mod = c16 if self._ocpp_version == "1.6" else c201
             self._ov_rec.log("hook-call-start", name)
             try:
-                await self.call(mod.Heartbeat())
+                if self._ov_specs[name]["calls"] == "invalid":
+                    await self.call(mod.Reset(type="NotAType"))       # violates the request schema of either version
+                else:
+                    await self.call(mod.Heartbeat())
             except BaseException as e:  # noqa: BLE001
                 self._ov_rec.log("hook-call-done", name, type(e).__name__)
                 if not isinstance(e, Exception):
